@@ -174,6 +174,9 @@ func genFieldDataset(r *rand.Rand, n int) *fdataset {
 		// fields that sort between "d" and "d.x" and are sometimes JSON documents
 		if r.Intn(3) == 0 {
 			v := pick(r, numTexts)
+			if r.Intn(4) == 0 {
+				v = pick(r, jsonTexts) // the dotted name itself holds a JSON document
+			}
 			o.fields["d.x"] = v
 			cmd = append(cmd, "FIELD", "d.x", v)
 		}
